@@ -491,10 +491,107 @@ def seawater_stogryn95_admissible_full : Prop :=
 
 /-! ### statements kept at full strength but not proved here (asserted nowhere) -/
 
-/-- brine volume 0 ⇒ saline ice = pure ice: needs `csqrt ((ε + 2 e0)²) = ε + 2 e0` for `Re (ε + 2 e0) > 0`
-    (principal square root); checked by the oracle at 1e-9 relative. -/
-def saline_ice_zero_brine_full : Prop :=
-  ∀ (sh : Shape) (f T : ℝ), 0 < f → 235.15 ≤ T → T ≤ 273.15 → salineIcePvs sh f T 0 = iceMaetzler06 f T
+theorem cext {a b : Cx ℝ} (h1 : a.re = b.re) (h2 : a.im = b.im) : a = b := by
+  cases a; cases b; simp only at h1 h2; subst h1; subst h2; rfl
+theorem neg_re_fn (a : Cx ℝ) : (Cx.neg a).re = -a.re := rfl
+theorem neg_im_fn (a : Cx ℝ) : (Cx.neg a).im = -a.im := rfl
+
+/-- the numerically stable principal square root returns `w` for the perfect square `w²` whenever `Re w > 0` -/
+theorem csqrt_sq_self (w : Cx ℝ) (hw : 0 < w.re) : csqrt (w * w) = w := by
+  rcases w with ⟨x, y⟩
+  simp only at hw
+  have hm : Real.sqrt ((x * x - y * y) * (x * x - y * y) + (x * y + y * x) * (x * y + y * x)) = x * x + y * y := by
+    have : (x * x - y * y) * (x * x - y * y) + (x * y + y * x) * (x * y + y * x) = (x * x + y * y) ^ 2 := by ring
+    rw [this, Real.sqrt_sq (add_nonneg (mul_self_nonneg x) (mul_self_nonneg y))]
+  have two : (2.0 : ℝ) = 2 := by norm_num
+  unfold csqrt
+  simp only [mul_re, mul_im, transc_sqrt_real, hm, two]
+  by_cases h : 0 ≤ x * x - y * y
+  · rw [if_pos h]
+    have ha : Real.sqrt ((x * x + y * y + (x * x - y * y)) / 2) = x := by
+      have : (x * x + y * y + (x * x - y * y)) / 2 = x ^ 2 := by ring
+      rw [this, Real.sqrt_sq hw.le]
+    simp only [ha, if_pos hw]
+    apply cext
+    · rfl
+    · show (x * y + y * x) / (2 * x) = y
+      rw [div_eq_iff (by positivity)]; ring
+  · rw [if_neg h]
+    have hy : y ≠ 0 := by
+      intro h0; subst h0; apply h; nlinarith
+    have hb : Real.sqrt ((x * x + y * y - (x * x - y * y)) / 2) = |y| := by
+      have : (x * x + y * y - (x * x - y * y)) / 2 = y ^ 2 := by ring
+      rw [this, Real.sqrt_sq_eq_abs]
+    simp only [hb]
+    by_cases hneg : x * y + y * x < 0
+    · rw [if_pos hneg]
+      have hy0 : y < 0 := by
+        by_contra hc; push Not at hc
+        have : 0 ≤ x * y + y * x := by nlinarith
+        linarith
+      rw [abs_of_neg hy0]
+      apply cext
+      · show -(x * y + y * x) / (2 * -y) = x
+        rw [div_eq_iff (by linarith)]; ring
+      · show - -y = y
+        ring
+    · rw [if_neg hneg]
+      have hy0 : 0 < y := by
+        rcases lt_or_gt_of_ne hy with h1 | h1
+        · exfalso; apply hneg; nlinarith
+        · exact h1
+      rw [abs_of_pos hy0]
+      apply cext
+      · show (x * y + y * x) / (2 * y) = x
+        rw [div_eq_iff (by positivity)]; ring
+      · rfl
+
+theorem lit2 : (2.0 : ℝ) = 2 := by norm_num
+theorem lit3 : (3.0 : ℝ) = 3 := by norm_num
+theorem lit4 : (4.0 : ℝ) = 4 := by norm_num
+theorem lit5 : (5.0 : ℝ) = 5 := by norm_num
+
+/-- Polder-van Santen (spheres) at zero fractional volume is the background, on the principal branch -/
+theorem pvsSpheres_zero (e0 eps : Cx ℝ) (h : 0 < eps.re + 2 * e0.re) : pvsSpheres 0 e0 eps = e0 := by
+  unfold pvsSpheres
+  simp only [lit2, lit3, lit4]
+  have hd : (eps - Cx.smul 2 e0 - Cx.smul (3 * 0) (eps - e0)) * (eps - Cx.smul 2 e0 - Cx.smul (3 * 0) (eps - e0))
+      - Cx.smul (4 * 2) (Cx.neg (eps * e0)) = (eps + Cx.smul 2 e0) * (eps + Cx.smul 2 e0) := by
+    apply cext
+    · simp only [sub_re, mul_re, smul_re, sub_im, smul_im, neg_re_fn, add_re, add_im, mul_im]; ring
+    · simp only [sub_re, mul_re, smul_re, sub_im, smul_im, neg_im_fn, add_re, add_im, mul_im]; ring
+  rw [hd, csqrt_sq_self _ (by simpa [add_re, smul_re] using h)]
+  apply cext
+  · simp only [sub_re, mul_re, smul_re, sub_im, smul_im, neg_re_fn, add_re, add_im, mul_im]; ring
+  · simp only [sub_re, mul_re, smul_re, sub_im, smul_im, neg_im_fn, add_re, add_im, mul_im]; ring
+
+/-- ... and for random needles -/
+theorem pvsNeedles_zero (e0 eps : Cx ℝ) (h : 0 < eps.re + e0.re) : pvsNeedles 0 e0 eps = e0 := by
+  unfold pvsNeedles
+  simp only [lit2, lit3, lit4, lit5]
+  have hd : (eps - e0 - Cx.smul (5 / 3 * 0) (eps - e0)) * (eps - e0 - Cx.smul (5 / 3 * 0) (eps - e0))
+      - Cx.smul (4 * 1) (Cx.neg (eps * (e0 + Cx.smul (1 / 3 * 0) (eps - e0)))) = (eps + e0) * (eps + e0) := by
+    apply cext
+    · simp only [sub_re, mul_re, smul_re, sub_im, smul_im, neg_re_fn, add_re, add_im, mul_im]; ring
+    · simp only [sub_re, mul_re, smul_re, sub_im, smul_im, neg_im_fn, add_re, add_im, mul_im]; ring
+  rw [hd, csqrt_sq_self _ (by simpa [add_re] using h)]
+  apply cext
+  · simp only [sub_re, mul_re, smul_re, sub_im, smul_im, neg_re_fn, add_re, add_im, mul_im]; ring
+  · simp only [sub_re, mul_re, smul_re, sub_im, smul_im, neg_im_fn, add_re, add_im, mul_im]; ring
+
+/-- **saline_ice_zero_brine** (formerly a `_full` claim): with no brine, the Polder-van Santen saline ice of either inclusion shape is
+    exactly the pure-ice permittivity (the discriminant is a perfect square and the stable square root returns its principal root) -/
+theorem saline_ice_zero_brine (sh : Shape) (f T : ℝ) (hf : 0 < f) (h1 : 235.15 ≤ T) (h2 : T ≤ 273.15) :
+    salineIcePvs sh f T 0 = iceMaetzler06 f T := by
+  have hb := (brine_stogryn85_admissible f T hf h1 h2).1
+  have hi : 1 ≤ iceReal (T - 273.15) := iceReal_ge_one (by linarith)
+  unfold salineIcePvs
+  rw [iceMaetzler06_ok h2]
+  simp only [bind, Except.bind, pure, Except.pure]
+  congr 1
+  cases sh with
+  | spheres => exact pvsSpheres_zero _ _ (by simp only; linarith)
+  | needles => exact pvsNeedles_zero _ _ (by simp only; linarith)
 
 /-- admissibility of the *mixed* materials (Maxwell-Garnett / Polder–van Santen / Tinga / MEMLS / Wiesmann outputs for admissible
     constituents) is a property of the mixing formulae (C15); here only on grids (oracle). -/
